@@ -95,10 +95,14 @@ def one(ctx: Ctx, cs, damage=False, pname=None, over=None):
     filters = [(n,) for n in CT.ORDER]
     for _ in range(8):
         filters.append(tuple(rng.sample(CT.ORDER, rng.randint(2, 6))))
+    # the empty filter in its three container forms: its closure is empty, so is the listing
+    filters += [(), (), ()]
     real_cats = [t.category.name for t in listing]
     for k, f in enumerate(filters):
         ctx.ev()
         ctx.mon('filtered_listings')
+        if not f:
+            ctx.mon('empty_filter_listings')
         clo = CT.closure(f)
         arg = [set, list, tuple][k % 3](TC[c] for c in f)
         if len(f) == 1 and k % 4 == 3:
